@@ -438,6 +438,9 @@ func planEval(idx int64, param string) *explore.Result {
 			for _, t := range t1 {
 				if len(t) == 1 {
 					res.Counts["single_segment_tasks"]++
+					if p := ps[t[0]]; p.live == p.full && p.live > 0 {
+						res.Counts["single_segment_tasks_without_deletions"]++ // rewrites a segment into an identical one
+					}
 				}
 				if len(t) > o.S {
 					res.Counts["tasks_longer_than_SegmentsPerMergeTask"]++
@@ -457,7 +460,7 @@ func planEval(idx int64, param string) *explore.Result {
 			outcome.WriteString(strconv.Itoa(len(t)))
 		}
 		outcome.WriteByte(' ')
-		if idx%20011 == 7 && o.T == 2 && o.S == 3 && o.G == 2 && o.R == 2 {
+		if idx%4999 == 7 && len(t1) > 0 && o.T == 2 && o.S == 3 && o.G == 2 && o.R == 2 {
 			res.Sample = map[string]interface{}{"segments(full/live)": pairsString(ps), "options": o.String(), "plan": tasksString(ps, t1)}
 		}
 	}
@@ -660,7 +663,7 @@ func bfsDepth(param string) int {
 		return n
 	}
 	if param == "thorough" {
-		return 18
+		return 20
 	}
 	return 14
 }
